@@ -249,6 +249,12 @@ func genC16(g *G) {
 	}
 }
 
+// frames a destination may already hold
+var dirtyFrames = []can.Frame{
+	{ID: 0x1abcdef, Length: 8, Data: can.Data{0xff, 0xfe, 0xfd, 0xfc, 0xfb, 0xfa, 0xf9, 0xf8}, IsExtended: true},
+	{ID: 0x7ff, Length: 5, Data: can.Data{}, IsRemote: true},
+}
+
 func init() {
 	RegGen("C15", genC15)
 	RegGen("C16", genC16)
@@ -284,7 +290,19 @@ func init() {
 	})
 	RegExec("junm", func(a []string) string {
 		var f can.Frame
-		if err := f.UnmarshalJSON(Hex(a[0])); err != nil {
+		err := f.UnmarshalJSON(Hex(a[0]))
+		// the same document into destinations that already hold a frame (a reused variable, a decoder loop)
+		for _, prior := range dirtyFrames {
+			g := prior
+			err2 := g.UnmarshalJSON(Hex(a[0]))
+			if (err == nil) != (err2 == nil) {
+				return "destination-dependent-outcome"
+			}
+			if err == nil && g != f {
+				return "ok " + frameStr(f) + " but-into-used-destination " + frameStr(g)
+			}
+		}
+		if err != nil {
 			return "err"
 		}
 		return "ok " + frameStr(f)
@@ -308,7 +326,18 @@ func init() {
 		if err != nil {
 			return "err-marshal"
 		}
-		var back wrap
+		// decoder loop over a stream, one destination variable reused; and pre-filled destinations
+		dec := json.NewDecoder(strings.NewReader(dirtyFrames[0].JSON() + " " + f.JSON() + "\n" + dirtyFrames[1].JSON() + f.JSON()))
+		var reused can.Frame
+		for k := 0; k < 4; k++ {
+			if err := dec.Decode(&reused); err != nil {
+				return "err-stream"
+			}
+			if k%2 == 1 && reused != direct {
+				return "stream-mismatch " + frameStr(reused)
+			}
+		}
+		back := wrap{F: dirtyFrames[0], L: []can.Frame{dirtyFrames[1], dirtyFrames[0], dirtyFrames[1]}, P: &can.Frame{ID: 5, Length: 8, Data: can.Data{9, 9, 9, 9, 9, 9, 9, 9}}}
 		if err := json.Unmarshal(b, &back); err != nil {
 			return "err-unmarshal-nested"
 		}
